@@ -188,7 +188,8 @@ pub fn gen_nlib(t: &mut Tape) -> (NLib, NSwarm) {
 }
 /// One documented-unsupported library-level record
 pub fn gen_extra(t: &mut Tape, sw: &NSwarm) -> NExtra {
-    match t.draw(8) {
+    match t.draw(10) {
+        8 | 9 => NExtra::FormatFiltered(1 + t.draw(2) as i16, (0..t.range(1, 3)).map(|_| gen_bytes_string(t, sw)).collect()),
         0 => NExtra::LibDirSize(gen_i16(t)),
         1 => NExtra::SrfName(gen_bytes_string(t, sw)),
         2 => NExtra::LibSecur(gen_i16(t)),
